@@ -422,8 +422,11 @@ class SimTransport(transports.Transport):
 
 
 class ExecJob:
-    def __init__(self, seq, func, fut):
+    def __init__(self, seq, func, fut, executor=None):
         self.seq, self.func, self.fut = seq, func, fut
+        # the pool the job was handed to (None: the loop's default pool, taken to have a free thread always); a pool
+        # object with ``_max_workers`` = m runs its m oldest jobs, the others wait for a thread
+        self.executor = executor
 
 
 class Net:
@@ -440,6 +443,7 @@ class Net:
         self._seq = itertools.count(1)
         self._idx = itertools.count(1)
         self.jobs = []
+        self.stuck = None          # predicate(job): this blocking call never returns
         self.trace = []            # delivery trace (for determinism checks / replays)
         self.n_events = 0
         self.split_policy = default_split_positions
@@ -473,7 +477,16 @@ class Net:
         for l in self.all_listeners:
             if not l.closed and l.backlog:
                 ev.append((l.backlog[0][0], "accept", l))
-        for j in self.jobs:
+        running = {}
+        for j in sorted(self.jobs, key=lambda x: x.seq):
+            m = getattr(j.executor, "_max_workers", None) if j.executor is not None else None
+            if m is not None:
+                k = running.get(id(j.executor), 0)
+                if k >= m:
+                    continue                     # every thread of its pool is busy with an older job
+                running[id(j.executor)] = k + 1
+            if self.stuck is not None and self.stuck(j):
+                continue                         # a blocking call that does not return (it keeps its thread)
             ev.append((j.seq, "exec", j))
         ev.sort(key=lambda e: e[0])
         return ev
@@ -814,7 +827,7 @@ class SimLoop(base_events.BaseEventLoop):
         if args:
             import functools
             func = functools.partial(func, *args)
-        job = ExecJob(self.net.new_seq(), func, fut)
+        job = ExecJob(self.net.new_seq(), func, fut, executor)
         self.net.jobs.append(job)
         if self.net.exec_cancellable:
             # the job is still *queued* in the pool (all workers busy): cancelling its future withdraws it, the blocking
